@@ -1,11 +1,11 @@
 """C01.R1 - grammar ladder of mparser.Parser (DESIGN section 2 C01.R1, data sheet A.1).
 
-Every parser level is replayed symbolically on all its paths (loops unrolled up to three
-times).  A path is summarised as (tokens consumed in order) -> (shape of the returned tree)
-where the shape talks about *node fields* (bound through the node constructors) and about
-operand calls numbered in evaluation order.  The summary is compared with the reference
-ladder below, which encodes the language reference (Syntax.md, "Precedence" / the statement
-of C01): nothing in it is copied from the source.
+For every parser level the decision table over its token atoms is extracted on all paths (loops unrolled up
+to three times by sa.paths): a row is (accept()/expect() atoms that hold, in order) -> (normalised shape of the
+returned expression, locals resolved to their reaching definitions by c01_sym).  The shape talks about *node
+fields* (positional constructor arguments bound to fields through the node constructors) and about operand
+calls numbered in evaluation order.  The table is compared with the reference ladder below, which encodes the
+language reference (Syntax.md precedence list / the statement of C01): nothing in it is copied from the source.
 """
 from __future__ import annotations
 
@@ -30,21 +30,9 @@ PARSE_ERRORS = {'ParseException', 'BlockParseException'}
 # node constructors: positional parameter -> field
 # ---------------------------------------------------------------------------
 
-_MRO: T.Dict[T.Tuple[int, str, str], T.List[T.Tuple[Module, ast.ClassDef]]] = {}
-
-
 def mro_cached(repo: Repo, mod: Module, name: str) -> T.List[T.Tuple[Module, ast.ClassDef]]:
-    """Repo.mro re-parses the import table on every call (engine gap): memoise per (repo, digest, class)."""
-    key = (id(repo), mod.rel + mod.digest, name)
-    if key not in _MRO:
-        if len(_MRO) > 4000:
-            _MRO.clear()
-        if '_c01_imports' not in mod.__dict__:
-            table = mod.imports()                     # walks the whole tree: do it once per module object
-            mod.__dict__['_c01_imports'] = table
-            mod.__dict__['imports'] = lambda table=table: table
-        _MRO[key] = repo.mro(mod, mod.cls(name))
-    return _MRO[key]
+    """Class linearisation by name (Repo.mro caches per Repo object, so an overlay never sees another tree's hierarchy)."""
+    return repo.mro(mod, mod.cls(name))
 
 
 def is_node_class(repo: Repo, mod: Module, name: str) -> bool:
